@@ -965,6 +965,55 @@ def _nested_points(tier):
 # ---------------------------------------------------------------- sub-checks
 
 
+def _family_aliases(fi):
+    out = set()
+    for c in _walk(_family(fi)):
+        out.update(_own_aliases(c))
+    return out
+
+
+def _nested_foreign_point(kind):
+    """an alias that belongs to ANOTHER family, given in a nested slot (bank / scaling_function /
+    window_function of a computer configuration), is unknown THERE and must raise ValueError - each
+    slot is resolved within its own family"""
+    from pydrobert.speech.alias import alias_factory_subclass_from_arg as afs
+    from pydrobert.speech.compute import FrameComputer
+
+    _load_all()
+    fam_index = {f[1]: i for i, f in enumerate(FAMILIES)}
+    slots = {"scaling_function": "ScalingFunction", "bank": "LinearFilterBank",
+             "window_function": "WindowFunction"}
+    viol = []
+    evals = 0
+    base = {"name": kind, "bank": {"name": "gabor", "scaling_function": "mel", "num_filts": 2, "low_hz": 0.0,
+                                   "sampling_rate": RATE}, "window_function": "hamming"}
+    for slot, famname in slots.items():
+        own = _family_aliases(fam_index[famname])
+        foreign = sorted(set(_all_aliases()) - own)
+        for alias in foreign:
+            for form in ("str", "name", "alias"):
+                cfgd = copy.deepcopy(base)
+                val = alias if form == "str" else {form: alias}
+                if slot == "scaling_function":
+                    cfgd["bank"]["scaling_function"] = val
+                else:
+                    cfgd[slot] = val
+                evals += 1
+                r = computers.call(afs, FrameComputer, cfgd)
+                if not (r[0] == "exc" and r[1] == "ValueError"):
+                    viol.append(core.violation(
+                        dict(what="nested_config", aspect="foreign_alias", slot=slot, computer=kind,
+                             got=("instance" if r[0] == "ok" else r[1])),
+                        "%r in slot %s of a %r configuration (an alias of another family) gave %s, expected "
+                        "ValueError" % (val, slot, kind, _show(r)), dict(kind=kind)))
+                    break
+            else:
+                continue
+            break
+    return core.result(viol, evals=evals, nontrivial_count=evals, obs=[kind, len(viol) == 0],
+                       sample=dict(computer=kind, slots=sorted(slots)))
+
+
 def subchecks(tier, seed):
     core.setup_repo_path()
     kmax = 5 if tier == "quick" else 7
@@ -1012,6 +1061,11 @@ def subchecks(tier, seed):
             "nested mappings) equal to a deep copy taken before the call",
             axes=dict(mapping=MAPPING_TYPES, family=["private"] + [f[1] for f in FAMILIES]),
             replay=_from_arg_replay, serial=True),
+        core.SubCheck(
+            "nested_foreign", ["stft", "si"], _nested_foreign_point,
+            "computer {stft, si} x nested slot {bank, scaling_function, window_function} x every alias that "
+            "belongs to another family x form {str, name, alias}: ValueError (each slot resolves within its "
+            "own family)", replay=lambda case: _nested_foreign_point(case["kind"]), serial=True),
         core.SubCheck(
             "nested_config", npts, lambda c: _nested_point(c, seed),
             "computer alias x bank alias x scale alias x window alias (x parameter sets) x key style "
